@@ -153,6 +153,8 @@ def run(ctx):
     c13_2(ctx, impls)
     c13_3(ctx, impls)
     c13_4(ctx, impls)
+    from . import pycodec
+    pycodec.run(ctx, "C13.W", parts=("bytes", "hash"))
 
 
 # ------------------------------------------------------------------ C13.1a
